@@ -26,15 +26,15 @@ def seqsOf (ps : PS) : List Nat := ps.held.map (·.2.seq)
 /-- what is held sits at or after position `idx` and is older than `b` -/
 def Below (ps : PS) (idx b : Nat) : Prop := ∀ p ∈ ps.held, idx ≤ p.1 ∧ p.2.seq < b
 
-theorem isBusy_iff {acts : List Act} {ps : PS} (hs : Shape acts ps) (i : Nat) :
+theorem isBusy_iff {acts : List Act} [NoCol acts] {ps : PS} (hs : Shape acts ps) (i : Nat) :
     isBusy ps i = true ↔ ∃ p ∈ ps.held, p.1 = i := by
   simp [isBusy, hs.busy]
 
-theorem busyTotal_shape {acts : List Act} {ps : PS} (hs : Shape acts ps) : busyTotal ps = ps.held.length := by
+theorem busyTotal_shape {acts : List Act} [NoCol acts] {ps : PS} (hs : Shape acts ps) : busyTotal ps = ps.held.length := by
   simp [busyTotal, hs.busy]
 
 /-- with everything held at or after `i`, holder `i` is busy exactly when it is the head -/
-theorem head_cases {acts : List Act} {ps : PS} {i b : Nat} (hs : Shape acts ps) (hb : Below ps i b) :
+theorem head_cases {acts : List Act} [NoCol acts] {ps : PS} {i b : Nat} (hs : Shape acts ps) (hb : Below ps i b) :
     (heldAt ps i = none ∧ isBusy ps i = false ∧ Below ps (i+1) b) ∨
     (∃ x rest, ps.held = (i, x) :: rest ∧ heldAt ps i = some x ∧ isBusy ps i = true ∧
       (∀ p ∈ rest, i + 1 ≤ p.1 ∧ p.2.seq < x.seq) ∧ x.seq < b) := by
@@ -73,7 +73,7 @@ theorem head_cases {acts : List Act} {ps : PS} {i b : Nat} (hs : Shape acts ps) 
         | false => rfl
         | true => obtain ⟨q, hq, hqi⟩ := (isBusy_iff hs i).1 hbb; have := hall q hq; omega
 
-theorem reset_noop {acts : List Act} {ps : PS} (hs : Shape acts ps) {i : Nat} (hne : ∀ p ∈ ps.held, p.1 ≠ i) :
+theorem reset_noop {acts : List Act} [NoCol acts] {ps : PS} (hs : Shape acts ps) {i : Nat} (hne : ∀ p ∈ ps.held, p.1 ≠ i) :
     resetBusy ps i = ps := by
   have hb := hs.busy
   have hf : ps.busy.filter (· != i) = ps.busy := by
@@ -87,10 +87,10 @@ theorem reset_noop {acts : List Act} {ps : PS} (hs : Shape acts ps) {i : Nat} (h
     simp only [resetBusy] at hf ⊢
     rw [hf]
 
-theorem shape_emit {acts : List Act} {ps : PS} (hs : Shape acts ps) (t : Op) : Shape acts (emit ps t) :=
+theorem shape_emit {acts : List Act} [NoCol acts] {ps : PS} (hs : Shape acts ps) (t : Op) : Shape acts (emit ps t) :=
   ⟨hs.busy, hs.sorted, hs.holders, hs.nobrk⟩
 
-theorem shape_fin {acts : List Act} {ps : PS} (hs : Shape acts ps) (ev : Ev) (b : Bool) : Shape acts (fin ps ev b) := by
+theorem shape_fin {acts : List Act} [NoCol acts] {ps : PS} (hs : Shape acts ps) (ev : Ev) (b : Bool) : Shape acts (fin ps ev b) := by
   cases ev <;> simp [fin] <;> first | exact hs | exact shape_emit hs _
 
 theorem fin_held (ps : PS) (ev : Ev) (b : Bool) : (fin ps ev b).held = ps.held := by
@@ -101,7 +101,7 @@ theorem filter_keys_gt {rest : List (Nat × EvSpec)} {i : Nat} (h : ∀ p ∈ re
   rw [List.filter_eq_self]; intro p hp; have := h p hp; simp; omega
 
 /-- the state after the head holder let go of its event -/
-theorem flush_shape {acts : List Act} {ps : PS} {i : Nat} {x : EvSpec} {rest : List (Nat × EvSpec)}
+theorem flush_shape {acts : List Act} [NoCol acts] {ps : PS} {i : Nat} {x : EvSpec} {rest : List (Nat × EvSpec)}
     (hs : Shape acts ps) (hh : ps.held = (i, x) :: rest) (hrest : ∀ p ∈ rest, i + 1 ≤ p.1) (t : Op) :
     (resetBusy (emit (setHeld ps i none) t) i).held = rest ∧
     Shape acts (resetBusy (emit (setHeld ps i none) t) i) ∧
@@ -124,7 +124,7 @@ theorem flush_shape {acts : List Act} {ps : PS} {i : Nat} {x : EvSpec} {rest : L
   · rw [hheld]; intro p hp; exact hs.nobrk p (by rw [hh]; exact List.mem_cons_of_mem _ hp)
 
 /-- the state after holder `i` (nothing held at or before it) took event `e` -/
-theorem hold_shape {acts : List Act} {ps : PS} {i f : Nat} {e : EvSpec}
+theorem hold_shape {acts : List Act} [NoCol acts] {ps : PS} {i f : Nat} {e : EvSpec}
     (hs : Shape acts ps) (hgt : ∀ p ∈ ps.held, i + 1 ≤ p.1 ∧ p.2.seq < e.seq)
     (hget : acts[i]? = some (.holder f)) (hnb : NoBrk e) :
     (fin (markBusy (setHeld ps i (some e)) i) (.reg e) false).held = (i, e) :: ps.held ∧
@@ -281,7 +281,7 @@ theorem disposed_flight {c : Option Nat} {fl : List Nat} {x : Nat} (hc : c ≠ s
 theorem below_mono {ps : PS} {idx b b' : Nat} (h : Below ps idx b) (hb : b ≤ b') : Below ps idx b' :=
   fun p hp => ⟨(h p hp).1, Nat.lt_of_lt_of_le (h p hp).2 hb⟩
 
-theorem not_holder_not_key {acts : List Act} {ps : PS} (hs : Shape acts ps) {idx : Nat} {a : Act}
+theorem not_holder_not_key {acts : List Act} [NoCol acts] {ps : PS} (hs : Shape acts ps) {idx : Nat} {a : Act}
     (hget : acts[idx]? = some a) (hna : ∀ g, a ≠ .holder g) : ∀ p ∈ ps.held, p.1 ≠ idx := by
   intro p hp hpi
   obtain ⟨f, hf⟩ := hs.holders p hp
@@ -291,7 +291,7 @@ theorem below_succ_of_not_key {ps : PS} {idx b : Nat} (h : Below ps idx b) (hne 
     Below ps (idx+1) b := by
   intro p hp; have := h p hp; have := hne p hp; exact ⟨by omega, (h p hp).2⟩
 
-theorem runN (acts : List Act) :
+theorem runN (acts : List Act) [NoCol acts] :
     ∀ fuel,
       (∀ idx ev ps ps' r d c fl b, Shape acts ps → Below ps idx b → DRel d ps c fl → Ord fl c b →
         EvCtx ev c fl b → doActs fuel acts idx ev ps = (ps', r) →
@@ -342,6 +342,7 @@ theorem runN (acts : List Act) :
       | some a =>
         rw [hget] at hf; simp only at hf
         cases a with
+        | collapser ci => exact absurd hget (NoCol.out _ _)
         | plain i =>
           have hnk := not_holder_not_key hs hget (by intro g hg; cases hg)
           have hb1 := below_succ_of_not_key hb hnk
@@ -650,7 +651,7 @@ theorem drel_propd_nil {d : DS} {ps : PS} {c : Option Nat} (h : DRel d ps c []) 
   have := h.propd; simpa using this
 
 /-- the time-out event goes to the first busy holder -/
-theorem timeoutAction_head {acts : List Act} {ps : PS} {k l : Nat} {x : EvSpec} {rest : List (Nat × EvSpec)}
+theorem timeoutAction_head {acts : List Act} [NoCol acts] {ps : PS} {k l : Nat} {x : EvSpec} {rest : List (Nat × EvSpec)}
     (hs : Shape acts ps) (hh : ps.held = (k, x) :: rest) (hl : ∀ p ∈ ps.held, l ≤ p.1) :
     timeoutAction ps l = k := by
   have hsorted := hs.sorted; rw [hh] at hsorted
@@ -676,7 +677,7 @@ theorem timeoutAction_head {acts : List Act} {ps : PS} {k l : Nat} {x : EvSpec} 
       exact hmin p hp
     rw [this]; rfl
 
-theorem procEvN (acts : List Act) :
+theorem procEvN (acts : List Act) [NoCol acts] :
     ∀ fuel ev idx ps ps' r d c b m, Shape acts ps → Below ps idx b → DRel d ps c [] → Ord [] c b →
       EvCtx ev c [] b → (∀ sk, ev ≠ .child sk) → (ev = .tmo → c = none ∧ b = m + 1) →
       (∀ q, c = some q → q ≤ m) → Above m ps.ins → ItemsNoBrk ps.ins →
@@ -811,10 +812,10 @@ theorem procEvN (acts : List Act) :
                 refine ⟨extra ++ [.getTimeout] ++ extra2, d2, by simp [ht2, emit, ht], ?_, hok2⟩
                 exact drun_two (drun_two hdr hgt) hdr2
 
-theorem shape_init (acts : List Act) (ins : List Item) : Shape acts (PS.init ins) := by
+theorem shape_init (acts : List Act) [NoCol acts] (ins : List Item) : Shape acts (PS.init ins) := by
   refine ⟨rfl, List.Pairwise.nil, ?_, ?_⟩ <;> (intro p hp; simp [PS.init] at hp)
 
-theorem dischargeN (acts : List Act) :
+theorem dischargeN (acts : List Act) [NoCol acts] :
     ∀ fuel ps ps' r m, Shape acts ps → ps.held = [] → Above m ps.ins → ItemsNoBrk ps.ins →
       discharge fuel acts ps = (ps', r) →
       ∃ extra d', ps'.toks = ps.toks ++ extra ∧ drun {} extra = some d' := by
